@@ -30,6 +30,8 @@ EXPECT = {
     "R-LIFE.ret": [("returns-local", "ctl_ret_local"), ("returns-temporary-through-helper", "ctl_ret_temporary")],
     "R-API.ret": [("value-to-reference", "ctl_api_ref")],
     "R-GRD.fwd": [("member-skipped-on-one-path", "CtlCompound::transform")],
+    "R-OWN.borrow": [("aliasing-constructor", "CtlBorrow::CtlBorrow"), ("custom-deleter", "CtlBorrow2::CtlBorrow2")],
+    "R-API.param": [("const-ref-to-forwarding-ref", "ctl_api_param")],
     "R-LIFE.seq": [("moved-and-read-in-one-call", "ctl_moved_and_read")],
     "R-EX.init": [("size-only-eigen-matrix", "ctl_eigen_uninit"), ("size-only-eigen-member", "CtlEigenMember::CtlEigenMember")],
 }
@@ -64,6 +66,10 @@ def _run_all():
         r_own.returned_references(c, [u], scope=lambda f: "vt_control" in f.qn)
         r_own.api_returns(c, [u], baseline={"vt_control::ctl_api_ref|1": "value"})
         r_grd.forwarding(c, [u])
+        r_own.borrowed_shared(c, [u], scope=lambda f: "vt_control" in f.qn)
+        r_own.api_params(c, [u], baseline={"vt_control::ctl_api_param|2": ["cref", "cref"]})
+        if any(v["rule"] == "R-OWN.borrow" and "OkOwning" in v["function"] for v in c.violations):
+            raise AnalysisBroken("R-OWN.borrow fires on an owning make_shared")
         r_small.r_arg_sequence(c, [u], lambda f: "vt_control" in f.qn)
         saved2 = list(C.LIB_EXTRA)
         C.LIB_EXTRA.append(os.path.join(C.DRIVERS, "controls_eigen.cpp"))
